@@ -595,6 +595,9 @@ def _reentrant_cases(draw: Any) -> dict:
     from harness.engines import reentrant
 
     d = D(draw)
+    if d.pct(20):
+        return {"kind": "reentrant", "family": "retry", "backend": draw(BACKEND), "sched_seed": draw(SEED), "racers": d.int(2, 5),
+                "cps": d.int(0, 3), "api": d.pick(["m_async", "f_async", "inj_async"]), "nested": d.bool(), "stagger": d.int(0, 2)}
     if d.pct(35):
         return {"kind": "reentrant", "family": "chain", "backend": draw(BACKEND), "sched_seed": draw(SEED), "a_async": d.bool(),
                 "b_async": d.bool(), "api": d.pick(reentrant.APIS), "nested": d.bool(), "racers": d.int(1, 4), "b_first": d.pct(30),
@@ -618,7 +621,7 @@ def exhaustive_cases(prop: str, tier: str, w: int, n: int):
         return
     from harness.engines import reentrant
 
-    for i, case in enumerate(itertools.chain(reentrant.all_cases(), reentrant.chain_cases())):
+    for i, case in enumerate(itertools.chain(reentrant.all_cases(), reentrant.chain_cases(), reentrant.retry_cases())):
         if i % n == w:
             yield case
 
